@@ -521,11 +521,11 @@ def code_order(case: Dict[str, Any]) -> List[int]:
     return lst
 
 
-def content_stream(case: Dict[str, Any]) -> bytes:
+def content_stream(case: Dict[str, Any], fname: str = "F1") -> bytes:
     order = code_order(case)
     size = case["size"]
     sz = pdfw.ser(size)
-    out: List[bytes] = [b"BT", b"/F1 " + sz + b" Tf"]
+    out: List[bytes] = [b"BT", b"/" + fname.encode() + b" " + sz + b" Tf"]
     lay = case["layout"]
     if lay == "single":
         for i, code in enumerate(order):
@@ -617,23 +617,31 @@ def font_object(case: Dict[str, Any], doc: pdfw.Doc) -> Dict[str, Any]:
 
 
 def build_doc(cases: List[Dict[str, Any]], xref: str = "table", pack: bool = False,
-              pages_of: Optional[List[int]] = None) -> bytes:
-    """One page per entry of `pages_of` (indices into `cases`, default one page per case in order); a case that
-    is shown on several pages is ONE font object referenced by all of them."""
+              pages_of: Optional[List[Any]] = None) -> bytes:
+    """One page per entry of `pages_of` (default one page per case in order).  An entry is an index into `cases`,
+    or a LIST of indices: then the page's /Font dictionary holds these fonts as /F1 /F2 ... in that order and the
+    content shows all 256 codes with each of them in turn.  An indirect case that is shown several times (on
+    several pages, or under two names of one page) is ONE font object referenced every time; a case with
+    "direct" is written inline in every resource dictionary that uses it."""
     doc = pdfw.Doc()
     pages = []
     fontids: List[int] = []
     frefs: Dict[int, Any] = {}
-    for idx in (pages_of if pages_of is not None else range(len(cases))):
-        case = cases[idx]
-        if idx not in frefs:
-            fo = font_object(case, doc)
-            if case["direct"]:
-                frefs[idx] = fo
-            else:
-                frefs[idx] = doc.add(fo)
-                fontids.append(frefs[idx].n)
-        pages.append({"content": content_stream(case), "resources": {"Font": {"F1": frefs[idx]}}})
+    for ent in (pages_of if pages_of is not None else range(len(cases))):
+        fonts: Dict[str, Any] = {}
+        content: List[bytes] = []
+        for slot, idx in enumerate(ent if isinstance(ent, list) else [ent]):
+            case = cases[idx]
+            if idx not in frefs:
+                fo = font_object(case, doc)
+                if case["direct"]:
+                    frefs[idx] = fo
+                else:
+                    frefs[idx] = doc.add(fo)
+                    fontids.append(frefs[idx].n)
+            fonts["F%d" % (slot + 1)] = frefs[idx]
+            content.append(content_stream(case, "F%d" % (slot + 1)))
+        pages.append({"content": b"".join(content), "resources": {"Font": fonts}})
     pdfw.page_doc(pages, doc=doc)
     if xref == "stream":
         return doc.build(xref="stream", objstm=fontids if pack else None)
